@@ -206,10 +206,47 @@ def profile_C08(g, tier):
     return scen
 
 
+def profile_C10(g, tier):
+    sels = SMALL if tier == "quick" else MEDIUM
+    scen = base_scenario(g, selections=sels)
+    fam = scen["families"]
+    kind = g.pick("kind", ["retry", "retry", "retry", "stop", "rerun", "invalid", "replay", "replay", "verdict"])
+    scen["kind"] = kind
+    fam["p_fail"] = g.pick("p_fail", [0.3, 0.5, 0.7])
+    fam["statuses"] = ["FAIL", "ERROR", "WARN", "SKIP", "CANCEL", "INTERRUPTED"]
+    if kind in ("retry", "stop", "rerun"):
+        scen["params"]["max_tries"] = g.pick("max_tries", ["2", "3", "4"])
+        if kind == "stop":
+            scen["params"]["stop_status"] = g.pick("stop", ["pass", "fail", "error", "pass warn", "fail error", "skip"])
+        if kind == "rerun":
+            scen["params"]["rerun_status"] = g.pick("rerun", ["fail", "fail error", "pass", "fail error unknown", "warn error"])
+        if g.chance("mct", 0.3):
+            scen["params"]["max_concurrent_tries"] = g.pick("mctv", ["1", "2"])
+    elif kind == "invalid":
+        combo = g.pick("invalid", [{"max_tries": "-1"}, {"max_tries": "-32"}, {"max_tries": "hey"}, {"max_tries": "2.5"},
+                                   {"max_tries": "3", "stop_status": "invalid"}, {"max_tries": "3", "rerun_status": "passed"},
+                                   {"max_tries": "2", "stop_status": "fail bogus"}])
+        scen["params"].update(combo)
+        scen["expect_value_error"] = " ".join(f"{k}={v}" for k, v in sorted(combo.items()))
+    elif kind == "replay":
+        first = {}
+        if g.chance("crash", 0.5):
+            first["crash_at"] = g.pick("crash_at", [0.26, 0.57, 1.05, 1.6])
+        scen["epochs"] = [first, {"replay": "job0"}]
+        if g.chance("replay_tries", 0.3):
+            scen["epochs"][1]["params"] = {"max_tries": g.pick("rmt", ["1", "3"])}
+        if g.chance("cleanup", 0.4):
+            scen["epochs"][1]["world_ops"] = [{"op": "cleanup", "p": 0.4, "pools": "all"}]
+    elif kind == "verdict":
+        scen["params"].update(g.pick("vr", [{}, {"max_tries": "2"}]))
+    return scen
+
+
 PROFILES = {
     "C01": profile_C01,
     "C02": profile_C02,
     "C03": profile_C03,
     "C04": profile_C04,
     "C08": profile_C08,
+    "C10": profile_C10,
 }
